@@ -79,9 +79,23 @@ func (r *ReceivedMessageReader[C]) loop(loopDone chan struct{}, readingMessages 
 			r.private.mutex.Lock()
 			readingMessages.Store(true)
 			r.private.mutex.Unlock()
-		// if the client is closed, the loop will be closed
+		// if the client is closed, the loop will be closed - after it has processed what was accepted
+		// before: a message that is already in the queue was received while the connection was open (the
+		// select above picks randomly between it and the done signal)
 		case <-r.cc.Done():
-			return
+			for {
+				select {
+				case <-loopDone:
+					return
+				default:
+				}
+				select {
+				case req := <-r.queue:
+					r.cc.ProcessReceivedMessage(req)
+				default:
+					return
+				}
+			}
 		}
 	}
 }
